@@ -483,4 +483,5 @@ func runC20(e *Engine, r *Report) {
 		r.check(okOrder, "MPT-import-batch", "tan import: bootstrap -> install -> sync", e.pos(ti.Pos()), "ordered and synced", "the Tan import no longer writes bootstrap, installs the snapshot and syncs on every success path")
 	}
 	ruleShrunkPredicate(e, r)
+	ruleLogDBDirs(e, r)
 }
